@@ -1,5 +1,15 @@
 import functools
-from typing import Any, Callable, Generator, Iterable, Iterator, MutableMapping, Tuple
+from typing import (
+    Any,
+    Callable,
+    Generator,
+    Iterable,
+    Iterator,
+    List,
+    MutableMapping,
+    Sequence,
+    Tuple,
+)
 
 from ..datastructures import Headers
 from ..typing import Environ, StartResponse, WSGIApp
@@ -37,8 +47,21 @@ class NextResponse(StreamingResponse):
     This is a response object for middleware.
     """
 
+    # `Set-Cookie` lines of the inner application. They cannot be combined into
+    # one comma separated header like other repeated headers.
+    raw_set_cookies: Sequence[str] = ()
+
     def render_stream(self) -> Generator[bytes, None, None]:
         yield from self.iterable
+
+    def list_headers(self, *, as_bytes):
+        headers = super().list_headers(as_bytes=as_bytes)
+        for line in self.raw_set_cookies:
+            if as_bytes:
+                headers.append((b"set-cookie", line.encode("latin-1")))
+            else:
+                headers.append(("set-cookie", line))
+        return headers
 
     @classmethod
     def from_app(cls, app: WSGIApp, request: NextRequest) -> "NextResponse":
@@ -47,6 +70,7 @@ class NextResponse(StreamingResponse):
         """
         status_code = 200
         headers: Headers = Headers()
+        set_cookies: List[str] = []
 
         def start_response(
             status: str, response_headers: Iterable[Tuple[str, str]], exc_info=None
@@ -54,10 +78,18 @@ class NextResponse(StreamingResponse):
             nonlocal status_code
             nonlocal headers
             status_code = int(status.split(" ")[0])
-            headers = Headers(response_headers)
+            response_headers = list(response_headers)
+            set_cookies[:] = [
+                v for k, v in response_headers if k.lower() == "set-cookie"
+            ]
+            headers = Headers(
+                (k, v) for k, v in response_headers if k.lower() != "set-cookie"
+            )
 
         body = ensure_next(app(request, start_response))
-        return NextResponse(body, status_code, headers)
+        response = NextResponse(body, status_code, headers)
+        response.raw_set_cookies = set_cookies
+        return response
 
 
 def middleware(
